@@ -161,6 +161,43 @@ static void fam_execute(Result& R, Rng& r) {
     progress();
 }
 
+// ---------------------------------------------------------------------------------------------- execute: the slot is vacated by a worker
+// One worker in the whole process (limit 2). It occupies the only slot of arena X (running an enqueued task) when the caller arrives in
+// X.execute: the caller delegates and sleeps. Then an arena of higher priority takes the worker (X is recalled): the worker leaves X as
+// soon as its task ends and sleeps in a task of Y that only ends after the caller's functor ran. The slot of X is free: the caller must wake.
+static void fam_execute_recall(Result& R, Rng& r) {
+    tbb::global_control one_worker(tbb::global_control::max_allowed_parallelism, 2);
+    int xr = 0, xc = r.chance(2, 3) ? 1 : 2;
+    auto xp = r.chance(1, 2) ? tbb::task_arena::priority::normal : tbb::task_arena::priority::low;
+    tbb::task_arena X(xc, xr, xp), Y(2, 1, tbb::task_arena::priority::high);
+    X.initialize(); Y.initialize();
+    unsigned hold_us = 300 + (unsigned)r.below(4000), helper_delay = (unsigned)r.below(hold_us), caller_delay = (unsigned)r.below(hold_us / 2 + 1);
+    int callers = xc;       // as many callers as X has slots: with the worker inside, the last of them finds X full
+    Json pj; pj.obj(); pj.kv("X_slots", xc); pj.kv("X_priority", xp == tbb::task_arena::priority::low ? "low" : "normal"); pj.kv("worker_task_us", (long long)hold_us); pj.kv("callers", callers); pj.end_obj();
+    g_cur.set("execute_recall", pj.s, callers);
+    std::atomic<bool> t_started{false}, y_done{false}; std::atomic<int> ran{0};
+    std::mutex m; std::condition_variable cv;
+    X.enqueue([&, hold_us] { t_started = true; sleep_us(hold_us); });
+    while (!t_started.load()) sched_yield();
+    std::thread helper([&] { sleep_us(helper_delay); Y.enqueue([&] { { std::unique_lock<std::mutex> l(m); cv.wait(l, [&] { return ran.load() >= callers; }); } y_done.store(true, std::memory_order_release); }); });
+    std::atomic<uint64_t> slept{0};
+    std::vector<std::thread> th;
+    for (int c = 0; c < callers; c++) th.emplace_back([&, c] {
+        WaiterProbe w;
+        if (c == callers - 1) sleep_us(caller_delay);
+        X.execute([&] { if (c != callers - 1) sleep_us(hold_us * 2); { std::lock_guard<std::mutex> l(m); ran++; } cv.notify_all(); });
+        slept += w.sleeps(); g_cur.done++; progress();
+    });
+    for (auto& t : th) t.join();
+    helper.join();
+    R.scenarios++; if (slept.load()) { R.nontrivial++; R.stat("execute_recall.callers_slept_waiting_for_a_slot", (long long)slept.load()); }
+    R.signature(mix(mix(0xEC, xc), mix(slept.load() ? 1 : 0, hold_us / 500)));
+    progress();
+    // Y's task refers to this frame: it must have finished (it may even start only now) before the function returns
+    while (!y_done.load(std::memory_order_acquire)) sched_yield();
+    progress();
+}
+
 // ---------------------------------------------------------------------------------------------- enqueue, nobody waits in TBB
 struct Latch { std::mutex m; std::condition_variable cv; long left; explicit Latch(long n) : left(n) {} void hit() { std::lock_guard<std::mutex> l(m); if (--left == 0) cv.notify_all(); } void wait() { std::unique_lock<std::mutex> l(m); cv.wait(l, [&] { return left == 0; }); } };
 static void fam_enqueue(Result& R, Rng& r) {
@@ -272,7 +309,7 @@ int main(int argc, char** argv) {
         R.finish_and_exit(3);
     });
     typedef void (*Fam)(Result&, Rng&);
-    std::vector<std::pair<std::string, Fam>> fams = { { "group", fam_group }, { "cbq", fam_cbq }, { "mutex", fam_mutex }, { "execute", fam_execute }, { "enqueue", fam_enqueue }, { "resume", fam_resume } };
+    std::vector<std::pair<std::string, Fam>> fams = { { "group", fam_group }, { "cbq", fam_cbq }, { "mutex", fam_mutex }, { "execute", fam_execute }, { "execute_recall", fam_execute_recall }, { "enqueue", fam_enqueue }, { "resume", fam_resume } };
     for (long k = 0; k < cases; k++) {
         Rng r(top.next());
         if (do_perturb) { if (r.chance(1, 4)) perturb().clear(); else perturb_random(r, ids); }
